@@ -157,6 +157,49 @@ theorem bridge_drained (evs : List Event) (c : Client) (s : Session)
     simp only [hg, Option.map_some, Option.some.injEq] at h
     exact ⟨s', rfl, by simp [BridgeDrained, h]⟩
 
+/-- partial writes from any state: after the flushes `ns` (each `flush d n` = "send() accepted `n` bytes") the wire
+    has gained exactly the first `Σ ns` bytes of the write buffer, the buffer keeps exactly the rest, nothing new
+    is queued -/
+theorem partial_flush_from (ns : List Nat) : ∀ (σ : State) (d : Client) (s : Session), σ.get d = some s →
+    sbytes (run σ (ns.map (Event.flush d))).out d = sbytes σ.out d ++ s.writeBuf.take ns.sum ∧
+    qbytes (run σ (ns.map (Event.flush d))).out d = qbytes σ.out d ∧
+    ((run σ (ns.map (Event.flush d))).get d).map (·.writeBuf) = some (s.writeBuf.drop ns.sum) := by
+  induction ns with
+  | nil => intro σ d s h; simp [run, h]
+  | cons n ns ih =>
+    intro σ d s h
+    have hstep : step σ (.flush d n) = (σ.put d { s with writeBuf := s.writeBuf.drop n }).emit (.sent d (s.writeBuf.take n)) := by
+      simp [step, h]
+    have hg : (step σ (.flush d n)).get d = some { s with writeBuf := s.writeBuf.drop n } := by rw [hstep]; simp
+    obtain ⟨h1, h2, h3⟩ := ih (step σ (.flush d n)) d _ hg
+    have hrun : run σ ((n :: ns).map (Event.flush d)) = run (step σ (.flush d n)) (ns.map (Event.flush d)) := by
+      simp [run]
+    rw [hrun, h1, h2, h3]
+    refine ⟨?_, ?_, ?_⟩
+    · rw [hstep]
+      simp only [out_emit, out_put, sbytes, if_true, List.sum_cons, List.append_assoc]
+      rw [List.take_add]
+    · rw [hstep]; simp [qbytes]
+    · simp [List.drop_drop, Nat.add_comm]
+
+/-- `C25.partial_flush`: however the relay's writes towards client `d` are split — any list `ns` of byte counts
+    that send() accepted, short writes included — what `d` has received is a prefix of what was queued for it, the
+    missing part is exactly what is still in its write buffer (nothing dropped, nothing duplicated, order kept), and
+    once the counts add up to the buffered length `d` has received everything that was ever queued for it. -/
+theorem partial_flush (evs : List Event) (d : Client) (s : Session) (ns : List Nat)
+    (hd : (run init evs).get d = some s) :
+    sbytes (run (run init evs) (ns.map (Event.flush d))).out d ++ s.writeBuf.drop ns.sum =
+      qbytes (run (run init evs) (ns.map (Event.flush d))).out d ∧
+    ((run (run init evs) (ns.map (Event.flush d))).get d).map (·.writeBuf) = some (s.writeBuf.drop ns.sum) ∧
+    (s.writeBuf.length ≤ ns.sum →
+      sbytes (run (run init evs) (ns.map (Event.flush d))).out d = qbytes (run init evs).out d) := by
+  obtain ⟨h1, h2, h3⟩ := partial_flush_from ns (run init evs) d s hd
+  have hf := (fifo_run evs).alive d s hd
+  refine ⟨?_, h3, ?_⟩
+  · rw [h1, h2, ← hf, List.append_assoc, List.take_append_drop]
+  · intro hlen
+    rw [h1, ← hf, List.take_of_length_le hlen]
+
 /-- `C25.delivery` (specification form) -/
 theorem delivery_spec (evs : List Event) (c : Client) (data : Bytes) :
     Delivery (viewOf (run init evs)) c (some data)
